@@ -19,7 +19,7 @@
    the original this is "mutating the copy does not change the original", with dB the copy the converse.
    Not proved here: that deepCopy never throws on such a source; "hence byte-identical XML" relies on C01. *)
 From Adm Require Import Heap.Exec Heap.More gen.PlansGen Heap.PlanChecks Heap.Frame Heap.Copy Heap.WF Heap.Sync Heap.Remove
-  Heap.WFExt Heap.CopyRefs Heap.CopyInv Heap.Joint Heap.Acyclic Heap.Local Heap.LocalExt.
+  Heap.WFExt Heap.CopyRefs Heap.CopyInv Heap.Joint Heap.Acyclic Heap.Local Heap.LocalExt Heap.ReassignLocal.
 
 Theorem C09_copy_keeps_everything_but_links : forall e,
   ekind (copy_of e) = ekind e /\ ehoa (copy_of e) = ehoa e /\ eid (copy_of e) = eid e /\ etd (copy_of e) = etd e /\
@@ -204,3 +204,48 @@ Example C09_deep_copy_example :
   | None => False
   end.
 Proof. vm_compute. reflexivity. Qed.
+
+(* reassignIds too: in a history of successful extended calls (the joint invariant G = WF /\ Sync /\ ObjDisjoint then holds at
+   every call) in which no call names an element of dB or has dB as its document argument and reassignIds is called on other
+   documents only, every element of dB and dB itself stay exactly as they were.  reassignIds writes the members of its document
+   and the channel / track formats they reference; well-formedness of the call state puts those outside dB
+   (Heap/ReassignLocal.v: the walk of Heap/ReassignFull.v replayed under the locality invariant, for every outcome of the call) *)
+Theorem C09_reassignIds_is_local : forall dB (B0 : positive -> Prop) sL d s s' (r : unit + exn),
+  (forall y, B0 y -> parent sL y = Some dB) -> d <> dB -> WF s -> Local.Inv dB B0 sL s ->
+  reassign_ids d s = (s', r) -> Local.Inv dB B0 sL s'.
+Proof. exact reassign_ids_local. Qed.
+Print Assumptions C09_reassignIds_is_local.
+
+Theorem C09_mutations_incl_reassignIds_leave_the_other_side_unchanged : forall dB s0 ops s',
+  G s0 -> Forall (xsubj_ok_r dB (in_doc s0 dB)) ops -> xrun_succ gen_plans ops s0 = Some s' ->
+  (forall y, parent s0 y = Some dB -> get_elem s' y = get_elem s0 y) /\ get_doc s' dB = get_doc s0 dB.
+Proof. exact (other_side_unchanged_reassign gen_plans gen_add_plan_complete gen_remove_plan_complete gen_plans_typed eq_refl). Qed.
+Print Assumptions C09_mutations_incl_reassignIds_leave_the_other_side_unchanged.
+
+Theorem C09_independence_vocabulary_reassign : forall dB (B : positive -> Prop) o,
+  xsubj_ok_r dB B o <-> match o with XReassign d => d <> dB | _ => xsubj_ok dB B o end.
+Proof. intros dB B o. destruct o; simpl; tauto. Qed.
+
+(* non-vacuity: a document with a stream / channel / track format group and a track UID linked to a channel format, deep-copied;
+   reassignIds on the copy (after sparse IDs were set there) renumbers the copy and leaves the original's elements as they were *)
+Example C09_reassign_on_copy_example :
+  match xrun_succ gen_plans
+          (map XBase [ONewDoc 1; ONew 2 KStream 0 false; ONew 3 KChan 1 false; ONew 4 KTrack 0 false; ONew 5 KUid 0 false;
+                      ONew 6 KObj 0 false; OSetRef StreamChan 2 3; OAddRef StreamTrack 2 4; OSetRef UidChan 5 3; OAddRef ObjUid 6 5;
+                      OAdd 1 2; OAdd 1 6]
+           ++ [XDeepCopy 1 9 20; XBase (OSetId 20 (mkId 0 20000 0))]) empty_state with
+  | Some s =>
+      match xrun_succ gen_plans [XReassign 9] s with
+      | Some s' =>
+          Forall (xsubj_ok_r 1 (in_doc s 1)) [XReassign 9] /\
+          map (get_elem s') [2; 3; 4; 5; 6]%positive = map (get_elem s) [2; 3; 4; 5; 6]%positive /\
+          get_doc s' 1 = get_doc s 1 /\
+          map (fun h => option_map eid (get_elem s' h)) (listed s' 9 KObj) <> map (fun h => option_map eid (get_elem s h)) (listed s 9 KObj)
+      | None => False
+      end
+  | None => False
+  end.
+Proof.
+  vm_compute. split; [|split; [reflexivity|split; [reflexivity|discriminate]]].
+  repeat first [apply Forall_cons | apply Forall_nil]; intro X; vm_compute in X; discriminate X.
+Qed.
